@@ -64,7 +64,22 @@ RULE = ("The canonical case list of a tier is: for every corpus frame (a "
         "innermost pox/lib/packet file and function).  A run is non-trivial "
         "when at least one case stopped parsing early or took another parser "
         "chain than the pristine frame; distinct = distinct digest of the "
-        "ordered (case, chain, outcome) list.")
+        "ordered (case, chain, outcome) list.  In-system half (one scenario "
+        "per run, checks/c15n.py): 1-3 real SoftwareSwitches in a line under "
+        "the real controller with l2_learning and/or discovery, "
+        "miss_send_len 0..65535 (the switch's own truncation of the "
+        "packet-in), buffer pools 0/1/4/100; hosts send 8-30 (thorough: 60) "
+        "frames -- the random cases above, corpus frames truncated or with a "
+        "byte replaced, forged discovery probes with damaged TLVs -- and the "
+        "inter-switch wire truncates or replaces a byte of what crosses it "
+        "(flooded frames, discovery's own probes) at rate 0.2/0.5/1.0.  "
+        "Oracle: nothing raises out of the switch's receive path or its "
+        "re-serialisation on output, no exception is logged by any handler "
+        "(revent / Connection.read / switch message wrappers), no task dies, "
+        "no control connection is lost or replaced, the oracle above holds "
+        "on event.parsed inside a PacketIn listener, and 35 s after the "
+        "hostile traffic stops a clean unicast between re-learned hosts is "
+        "delivered exactly once (bounded liveness).")
 ASSUMPTIONS = [
   "the fault model is the one the property names: truncation at every "
   "offset and single-byte replacement of valid frames, complemented by "
@@ -81,14 +96,22 @@ ASSUMPTIONS = [
 ]
 REAL = ["pox.lib.packet.* (all parsers, __str__/_to_str, dump, pack/hdr)",
         "pox.openflow.PacketIn (lazy .parsed)", "pox.lib.addresses"]
-STUBBED = ["connection and ofp_packet_in objects handed to PacketIn "
-           "(attribute holders)", "no switch, no controller loop (pure "
-           "function sweep; the in-system half is the NET world's)"]
+REAL += ["in-system half: pox.datapaths.switch (rx_packet, match extraction, "
+         "packet-in truncation, output re-serialisation), of_01 controller "
+         "stack, forwarding.l2_learning, openflow.discovery PacketIn handlers"]
+STUBBED = ["sweep: connection and ofp_packet_in objects handed to PacketIn "
+           "(attribute holders), no switch, no controller loop",
+           "in-system half: socket/select/time/pinger (simkit), hosts and "
+           "links incl. the damaging wire (harness)"]
 EXPECT_PROBES = ["mode_trunc", "mode_byte", "mode_bytefix", "mode_truncfix",
                  "mode_random", "early_stop", "chain_changed",
                  "pristine_ok", "grammar_dhcp", "grammar_tcpopt",
                  "grammar_lldp", "grammar_dns", "grammar_ndp", "grammar_nest",
-                 "grammar_wellformed_fully_parsed"]
+                 "grammar_wellformed_fully_parsed", "mode_insitu",
+                 "insitu_packet_in_seen", "insitu_packet_in_cut_by_miss_send_len",
+                 "insitu_app_discovery", "insitu_hostile_forged_probe",
+                 "insitu_clean_exchange_after_hostile_traffic",
+                 "wire_truncated", "wire_byte_replaced"]
 
 _PKT_DIR = os.path.join("pox", "lib", "packet") + os.sep
 
@@ -1148,6 +1171,10 @@ def gen_plan(seed, tier):
   steps = chunk_steps(tier, chunk, nch)
   steps.append({"mode": "random", "seed": mix(seed, "rnd"),
                 "range": [0, RANDOM_PER_RUN[tier]]})
+  # the in-system half: one scenario of hostile frames travelling through a
+  # running network (checks/c15n.py)
+  from checks import c15n
+  steps.append(c15n.gen_step(seed, tier, sorted(corpus())))
   return {"prop": PROP, "seed": seed,
           "cfg": {"tier": tier, "complete_chunk": [chunk, nch],
                   "index_exact": i is not None},
@@ -1803,8 +1830,10 @@ def run_plan(plan):
   def bump(d, k, n=1):
     d[k] = d.get(k, 0) + n
 
+  insitu = [st for st in plan["steps"]
+            if isinstance(st, dict) and st.get("mode") == "insitu"]
   for step in plan["steps"]:
-    if not isinstance(step, dict):
+    if not isinstance(step, dict) or step.get("mode") == "insitu":
       continue
     bump(probes, "mode_" + step["mode"], 0)
     for cid, group, name, b, descr in iter_cases(step):
@@ -1845,6 +1874,40 @@ def run_plan(plan):
           unknown.append((f, cid, descr, b))
       h.update(("%s|%s|%s\n" % (cid, chain, ",".join(ids))).encode())
 
+  # in-system scenarios last: they install the simulator's seams in this
+  # (forked, single-use) process
+  sim_time = 0.0
+  for step in insitu:
+    from checks import c15n
+    bump(probes, "mode_insitu")
+    try:
+      fs, pr, stt, dig, st_, nfr = c15n.run(step, calm=plan.get("calm", False))
+    finally:
+      logging.disable(logging.CRITICAL)
+    sim_time += st_
+    extra["cases_insitu"] = extra.get("cases_insitu", 0) + nfr
+    ncase += nfr
+    for k, v in pr.items():
+      bump(probes, "insitu_" + k if not k.startswith("insitu_") else k, v)
+    for k, v in stt.items():
+      if k.startswith(("wire_", "switch_rx", "egress_", "control_")):
+        bump(stats, k, v)
+    if nfr:
+      nontrivial = True
+    ids = []
+    for f in fs:
+      ids.append(f["id"])
+      bump(stats, "raise_insitu_" + f["op"])
+      bump(extra, "sig:" + f["id"])
+      if f["id"] in known:
+        hit_known.add(f["id"])
+      elif f["id"] not in unknown_ids:
+        unknown_ids[f["id"]] = len(unknown)
+        unknown.append((f, "insitu:%d" % step["seed"],
+                        ("insitu", f.get("where"), None),
+                        bytes.fromhex(f.get("frame_hex", ""))))
+    h.update(("insitu|%s|%s\n" % (dig, ",".join(ids))).encode())
+
   extra["tier_" + str(plan.get("cfg", {}).get("tier", "quick"))] = 1
   cc = plan.get("cfg", {}).get("complete_chunk")
   if cc and cc[1] == BUDGET.get(plan["cfg"].get("tier"), -1) \
@@ -1852,7 +1915,7 @@ def run_plan(plan):
     extra["chunk_%d" % cc[0]] = 1
   res = {"verdict": "ok", "digest": h.hexdigest()[:32], "stats": stats,
          "probes": probes, "extra": extra, "nontrivial": nontrivial,
-         "sim_time": 0.0, "steps": ncase, "known": sorted(hit_known)}
+         "sim_time": sim_time, "steps": ncase, "known": sorted(hit_known)}
   if unknown:
     f, cid, descr, b = unknown[0]
     res["verdict"] = "violation"
@@ -1883,7 +1946,7 @@ def minimise_hint(plan):
     if not isinstance(st, dict):
       continue
     lo, hi = st["range"]
-    if st["mode"] not in ("random",):
+    if st["mode"] not in ("random", "insitu"):
       hi = min(hi, len(corpus()[st["frame"]])
                + (1 if st["mode"] in ("trunc", "truncfix") else 0))
     if hi - lo > 1:
